@@ -323,7 +323,8 @@ fn cmd_selfcheck(a: &Args) -> i32 {
                 let (a2, _) = run_batch(prop, cfg.kind, seed, 0, per, false, 3);
                 let d1: Vec<u64> = a1.iter().map(|r| r.digest).collect();
                 let d2: Vec<u64> = a2.iter().map(|r| r.digest).collect();
-                if d1 != d2 {
+                let same = |x: &[u64], y: &[u64]| x.len() == y.len() && x.iter().zip(y).all(|(p, q)| p == q || *p == exec::CUT_DIGEST || *q == exec::CUT_DIGEST);
+                if !same(&d1, &d2) {
                     println!("NONDETERMINISM in-process: {} {} seed {}", prop, cfg.kind, seed);
                     return 2;
                 }
@@ -337,7 +338,7 @@ fn cmd_selfcheck(a: &Args) -> i32 {
                         .lines()
                         .filter_map(|l| l.split_whitespace().nth(3).and_then(|h| u64::from_str_radix(h, 16).ok()))
                         .collect();
-                    if d3 != d1 {
+                    if !same(&d3, &d1) {
                         println!(
                             "NONDETERMINISM across processes: {} {} seed {} workers {} ({} vs {} digests)",
                             prop, cfg.kind, seed, w, d3.len(), d1.len()
